@@ -51,7 +51,10 @@ func (e *Engine) Simplify(s sim.Step) []sim.Step { return nil }
 func (e *Engine) Generate(prop, tier string, seed uint64, run int) *sim.Plan {
 	rs := sim.Mix(seed, uint64(run)+0xC17)
 	r := sim.NewRand(rs)
-	p := &sim.Plan{Property: prop, Engine: "apisim", Tier: tier, Seed: seed, Run: run, RunSeed: rs, Cfg: map[string]interface{}{}}
+	// the identity configured in the repository (what the CLI would use) is somebody else or
+	// nobody in most runs: the API must author with the request's user, not with that one
+	p := &sim.Plan{Property: prop, Engine: "apisim", Tier: tier, Seed: seed, Run: run, RunSeed: rs, Cfg: map[string]interface{}{
+		"configured": []string{"other", "other", "none", "same"}[r.Intn(4)]}}
 	n := r.Range(10, 30)
 	if tier == "thorough" {
 		n = r.Range(20, 80)
@@ -259,7 +262,13 @@ func (e *Engine) Execute(p *sim.Plan, keepLog bool) (res *sim.RunResult) {
 		res.HarnessErr = err.Error()
 		return res
 	}
-	_ = rc.SetUserIdentity(user)
+	switch p.CfgStr("configured", "same") {
+	case "same":
+		_ = rc.SetUserIdentity(user)
+	case "other":
+		_ = rc.SetUserIdentity(other)
+	}
+	res.Probes["configured_"+p.CfgStr("configured", "same")]++
 	x.userId, x.otherId = string(user.Id()), string(other.Id())
 	for i := 0; i < 2; i++ {
 		sim.SetRandStep(uint64(10 + i))
